@@ -34,6 +34,14 @@ pub struct OuterFrom {
 
 impl OuterFrom {
     pub fn start(di: &syn::DeriveInput) -> Result<Self> {
+        // The element-level traits can only be derived for structs. An enum with variants is
+        // reported variant by variant in `parse_variant`; one without variants is caught here.
+        if let syn::Data::Enum(ref data) = di.data {
+            if data.variants.is_empty() {
+                return Err(Error::unsupported_shape("enum").with_span(&di.ident));
+            }
+        }
+
         Ok(OuterFrom {
             container: Core::start(di)?,
             attrs: Default::default(),
